@@ -3,7 +3,8 @@ CONSTANTS
   MaxBlocksAll = 2
   ExtraKinds <- LongKinds
   ExtraKindsAll <- LongKinds
+  SeacFull = TRUE
   BigCounts <- BigThorough
 SPECIFICATION Spec
-INVARIANTS MachineOK FormOK EncodingsOK GenExact EmitCase
+INVARIANTS MachineOK FormOK CharsetOK EncodingsOK GenExact EmitCase
 CHECK_DEADLOCK FALSE
